@@ -3,9 +3,9 @@ CHECK_DEADLOCK FALSE
 CONSTANT Alpha <- AlphaFull
 CONSTANT Alpha3 <- Alpha3Full
 CONSTANT TamperEmit <- EmitFull
+CONSTANT TamperWide = TRUE
 INVARIANT TypeOK
 INVARIANT TamperIsChange
-INVARIANT TamperChangesCanon
 INVARIANT AcceptIffUntampered
 INVARIANT DecodeInverts
 INVARIANT CanonIsClean
